@@ -46,7 +46,7 @@ CLAIMED["C18"] = dict(
    note="Outside (measured): parameter maps with >=1 parameter (std HashMap in the public signature), RouteUri::from_str (nom + nom_locate + memchr CPU-feature detection: a concrete '/ab' does not finish in 900 s), 'a parameter never binds an empty segment' (>20 GB in decode_utf8_lossy().to_string()), patterns with a scheme, relative patterns, parse_str on symbolic text beyond 2 bytes. Patterns are built from private fields (tied to the real parser by family P and by the native replay, which re-parses with parse_str/from_str). Stubs: RandomState::new (fixed keys; the map stays empty), core::fmt::write (no-op; error message text is not part of the property). One genuine defect found and repaired (C18-X1).",
    ref="DESIGN.md section 4, C18")
 CLAIMED["C13"] = dict(
-   text="Bounded symbolic model checking of the real RocksDB key encoding (StoreKey::serialize_as_bytes / write_into / map_ubound_bytes): lane ids over all of u64, keys of every length pair 0..3 (quick) / 0..6 (thorough) with symbolic bytes: encodings of different (lane,key) pairs differ, prefix(lane) <= encode(lane,k) < upper_bound(lane) in bytewise order, ranges of different lanes are disjoint, the suffix after MAP_KEY_PREFIX_SIZE is the key, value keys never collide with or fall inside any map key range.",
+   text="Bounded symbolic model checking of the real RocksDB key encoding (StoreKey::serialize_as_bytes / write_into / map_ubound_bytes): lane ids over all of u64, keys of every length pair 0..4 (quick) / 0..6 (thorough) with symbolic bytes: encodings of different (lane,key) pairs differ, prefix(lane) <= encode(lane,k) < upper_bound(lane) in bytewise order, ranges of different lanes are disjoint, the suffix after MAP_KEY_PREFIX_SIZE is the key, value keys never collide with or fall inside any map key range.",
    note="Claimed for the key-encoding kernel ONLY. Not applicable: everything behind librocksdb-sys (FFI: put/get/delete_range/iterators, reopen, SIGKILL, merge-operator counter), the fixed 8-byte prefix extractor configured in rocks.rs (interpreted by RocksDB), KeyStore name keys (format!), and the in-memory store (std HashMap; not attempted). Assumes RocksDB's default bytewise comparator.",
    ref="DESIGN.md section 4, C13")
 
